@@ -450,6 +450,32 @@ def _prop_fresh(p, fi, attr):
     return m is not None and m.kind == 'property' and _returns_fresh(m)
 
 
+def _iterated_names(p, fi, var):
+    """`var` is the target of a for / comprehension over a constant tuple or list of strings (a literal, a class attribute
+    `self.X` / `cls.X`, or a module constant): return those strings."""
+    iters = []
+    for n in ast.walk(fi.node):
+        if isinstance(n, ast.comprehension) and any(isinstance(x, ast.Name) and x.id == var for x in ast.walk(n.target)):
+            iters.append(n.iter)
+        if isinstance(n, ast.For) and any(isinstance(x, ast.Name) and x.id == var for x in ast.walk(n.target)):
+            iters.append(n.iter)
+    if len(iters) != 1:
+        return None
+    it = iters[0]
+    node = None
+    if isinstance(it, (ast.Tuple, ast.List)):
+        node = it
+    elif isinstance(it, ast.Attribute) and isinstance(it.value, ast.Name) and fi.cls is not None and fi.params and it.value.id == fi.params[0]:
+        a = fi.cls.find_attr(it.attr)
+        node = a[1] if a else None
+    elif isinstance(it, ast.Name):
+        nodes = fi.module.assigns.get(it.id)
+        node = nodes[-1] if nodes else None
+    if isinstance(node, (ast.Tuple, ast.List)) and all(isinstance(e, ast.Constant) and isinstance(e.value, str) for e in node.elts):
+        return tuple(e.value for e in node.elts)
+    return None
+
+
 def _is_cli_namespace(p, fi, name, _depth=0):
     """Is local `name` of fi the argparse namespace: bound from a *parse_args(...) call, or a parameter that every call
     site fills with such a variable?"""
@@ -575,6 +601,12 @@ def run(ctx):
                             and n.args[1].value not in ('children',):
                         ob.evaluations += 1       # a constant attribute name: an ordinary attribute read
                         continue
+                    if n.func.id == 'getattr' and len(n.args) >= 2 and isinstance(n.args[1], ast.Name):
+                        names_ = _iterated_names(p, fi, n.args[1].id)
+                        if names_ is not None and 'children' not in names_:
+                            ob.evaluations += 1
+                            ob.note('getattr over the constant names %s in %s' % (list(names_), fi.qual[len(PKG) + 1:]))
+                            continue
                     if n.func.id == 'getattr' and n.args and isinstance(n.args[0], ast.Name) and _is_cli_namespace(p, fi, n.args[0].id):
                         ob.evaluations += 1
                         ob.note('getattr on the argparse namespace in %s (not a node / wallet object)' % fi.qual[len(PKG) + 1:])
